@@ -20,23 +20,6 @@ pure function `Chan → Bool` of the channel parameters (the Rust signature allo
 -/
 namespace AranyaV.Shm
 
-/-- run a schedule (used by the non-vacuity examples) -/
-def run (s : State) : List Act → Option State
-  | [] => some s
-  | a :: as => match step s a with
-    | some (s', _) => run s' as
-    | none => none
-
-theorem reachable_run {cap n : Nat} {s s' : State} (h : Reachable cap n s) {as : List Act}
-    (hr : run s as = some s') : Reachable cap n s' := by
-  induction as generalizing s with
-  | nil => simp [run] at hr; subst hr; exact h
-  | cons a as ih =>
-    simp only [run] at hr
-    split at hr
-    · rename_i s1 r hs; exact ih (Reachable.step h hs) hr
-    · cases hr
-
 /-! ## the code never reaches a `Corrupted` / overwritten-slot branch -/
 
 /-- `add` / `remove` reuse on the second list the index found on the first one, and
@@ -66,48 +49,8 @@ theorem Mirror {cap n : Nat} {s : State} (h : Reachable cap n s) (hw : s.w = .id
 /-- a list the writer does not hold holds the produced table that belongs to its generation -/
 theorem rest_hist {cap n : Nat} {s : State} (h : Reachable cap n s) {x : Bool}
     (hx : s.w.holds ≠ some x) :
-    s.hist[(s.side x).gen]? = some (s.side x).chans ∧ s.hist.length ≤ (s.side x).gen + 2 := by
-  obtain ⟨_, hh, hq⟩ := reachable_tinv h
-  have htop := hist_top_get s.hist hh
-  have hlen : s.hist.length ≤ (top s.hist).gen + 2 := by simp only [top]; omega
-  have other : ∀ {w : Bool}, w ≠ x → x = !w := by
-    intro w hwx; cases w <;> cases x <;> simp_all
-  cases hpc : s.w with
-  | idle => rw [hpc] at hq; rw [hq.1 x]; exact ⟨htop, hlen⟩
-  | nid d p => rw [hpc] at hq; rw [hq.1 x]; exact ⟨htop, hlen⟩
-  | ldW op => rw [hpc] at hq; rw [hq.1 x]; exact ⟨htop, hlen⟩
-  | lk1 op w => rw [hpc] at hq; rw [hq.1 x]; exact ⟨htop, hlen⟩
-  | mu1 w todo nx r g0 =>
-    rw [hpc] at hq hx
-    cases nx with
-    | none => rw [hq.1 x]; exact ⟨htop, hlen⟩
-    | some p2 =>
-      obtain ⟨_, _, _, pre, hpre, hget, _, hl⟩ := hq
-      have : x = !w := other (by intro e; subst e; exact hx rfl)
-      subst this; rw [hpre]; exact ⟨hget, hl⟩
-  | sw w p2 r g0 =>
-    rw [hpc] at hq
-    obtain ⟨_, _, hw, pre, hpre, hget, _, hl⟩ := hq
-    by_cases e : w = x
-    · subst e; rw [hw]; exact ⟨htop, hlen⟩
-    · have := other e; subst this; rw [hpre]; exact ⟨hget, hl⟩
-  | lk2 r p2 rt g0 =>
-    rw [hpc] at hq
-    obtain ⟨_, _, hw, pre, hpre, hget, _, hl⟩ := hq
-    by_cases e : r = x
-    · subst e; rw [hpre]; exact ⟨hget, hl⟩
-    · have := other e; subst this; rw [hw]; exact ⟨htop, hlen⟩
-  | mu2 r todo rt g0 =>
-    rw [hpc] at hq hx
-    obtain ⟨_, _, hw, _, _⟩ := hq
-    have : x = !r := other (by intro e; subst e; exact hx rfl)
-    subst this; rw [hw]; exact ⟨htop, hlen⟩
-  | st r rt g0 =>
-    rw [hpc] at hq
-    obtain ⟨_, _, hw, hr, _⟩ := hq
-    by_cases e : r = x
-    · subst e; rw [hr]; exact ⟨htop, hlen⟩
-    · have := other e; subst this; rw [hw]; exact ⟨htop, hlen⟩
+    s.hist[(s.side x).gen]? = some (s.side x).chans ∧ s.hist.length ≤ (s.side x).gen + 2 :=
+  rest_hist_of_tinv (reachable_tinv h) hx
 
 /-- **gen_content.**  Outside a locked mutation, equal generation values imply equal
 contents: two lists (or one list at two moments — `hist` only grows) with the same generation
